@@ -523,6 +523,10 @@ def alphabet(thorough):
                          camera=(ti % 5 == 2), mocap=(ti % 6 == 3), tendon_armature=(ti % 4 == 2)), desc)
         if thorough or ti % 2 == 0:
             o, desc = opt("constr")
+            if desc[2] == "elliptic" and fam_count["constr"] > 2:
+                # MJX raises on elliptic cones without frictional contacts (reported once, by the first two elliptic
+                # models of this family); the remaining models stay informative with the pyramidal cone
+                o, desc = o.replace('cone="elliptic"', 'cone="pyramidal"'), desc[:2] + ("pyramidal",) + desc[3:]
             add(G.tree_model("constr[%s]" % tn, par, js, o, limits=True, friction=True, equality=eqsets[(ti // (1 if thorough else 2)) % 5],
                              tendon="full", actuators=1, sensors=1), desc)
     # flags
